@@ -44,7 +44,7 @@ def rand_fixture(rng, pf, name, params=(), **kw):
     return pf.fixture(name, params=params, scope=scope, autouse=autouse, body=body, doc=doc, **kw)
 
 
-def gen_workspace(rng, depth=None, force=None):
+def gen_workspace(rng, depth=None, force=None, want_plugin=None, want_third=None):
     """force: optional dict level -> mode"""
     ws = WS()
     if depth is None:
@@ -127,14 +127,14 @@ def gen_workspace(rng, depth=None, force=None):
             ws.users.append(join(sib, "test_sib.py"))
         ws.meta["sibling"] = kind
     # plugin and third-party
-    if rng.random() < 0.35:
+    if (rng.random() < 0.35) if want_plugin is None else want_plugin:
         pl = PyFile(); rand_fixture(rng, pl, name)
         if rng.random() < 0.5:
             rand_fixture(rng, pl, "bar")
         ws.add("plug/plugmod.py", pl)
         ws.plugin.append("plug/plugmod.py")
         ws.meta["plugin"] = True
-    ntp = rng.choice([0, 0, 1, 2])
+    ntp = rng.choice([0, 0, 1, 2]) if want_third is None else want_third
     for i in range(ntp):
         tp = PyFile(); rand_fixture(rng, tp, name)
         if rng.random() < 0.5:
